@@ -249,6 +249,52 @@ def inverse_pairs(ctx, d2):
             d2.fail('DictionaryView.' + nm, 'raw-values', '%s hands out unconverted molar values' % nm, f, f.node)
 
 
+def _unroll_literal_for(loop, fn):
+    """for <targets> in <literal tuple of tuples>: if <test>: <body>; break  [else: <orelse>]   ->   the equivalent if/elif chain (as an AST)"""
+    import copy as _copy
+    it = loop.iter
+    if isinstance(it, ast.Name):
+        defs = [n for n in walk_no_nested(fn) if isinstance(n, ast.Assign) and len(n.targets) == 1 and isinstance(n.targets[0], ast.Name) and n.targets[0].id == it.id]
+        it = defs[0].value if len(defs) == 1 else None
+    if not isinstance(it, (ast.Tuple, ast.List)) or not it.elts:
+        return None
+    tg = loop.target.elts if isinstance(loop.target, ast.Tuple) else [loop.target]
+    if not all(isinstance(t, ast.Name) for t in tg):
+        return None
+    if len(loop.body) != 1 or not isinstance(loop.body[0], ast.If) or loop.body[0].orelse or not isinstance(loop.body[0].body[-1], ast.Break):
+        return None
+    inner = loop.body[0]
+    chain = None
+    last = None
+    for el in it.elts:
+        vals = el.elts if isinstance(el, (ast.Tuple, ast.List)) else [el]
+        if len(vals) != len(tg):
+            return None
+        sub = {t.id: v for t, v in zip(tg, vals)}
+
+        class R(ast.NodeTransformer):
+            def visit_Name(self, nd):
+                if isinstance(nd.ctx, ast.Load) and nd.id in sub:
+                    return _copy.deepcopy(sub[nd.id])
+                return nd
+        test = R().visit(_copy.deepcopy(inner.test))
+        body = [R().visit(_copy.deepcopy(b)) for b in inner.body[:-1]]
+        # the loop targets stay bound to this element after the break
+        body = [ast.Assign(targets=[ast.Name(id=t.id, ctx=ast.Store())], value=_copy.deepcopy(v)) for t, v in zip(tg, vals)] + body
+        node = ast.If(test=test, body=body or [ast.Pass()], orelse=[])
+        if chain is None:
+            chain = node
+        else:
+            last.orelse = [node]
+        last = node
+    last.orelse = [_copy.deepcopy(x) for x in loop.orelse]
+    ast.fix_missing_locations(chain)
+    for x in ast.walk(chain):
+        if not hasattr(x, 'lineno'):
+            x.lineno = loop.lineno
+    return chain
+
+
 def dimension(ctx, d3):
     prog = ctx.prog
     f = prog.method('Stream', '_get_flow_name_and_factor', rel=ST)
@@ -257,9 +303,17 @@ def dimension(ctx, d3):
             for t in n.targets if isinstance(t, ast.Name)}
     chain = None
     for n in walk_no_nested(f.node):
-        if isinstance(n, ast.If) and isinstance(n.test, ast.Compare) and src(n.test.left) in dims and isinstance(n.test.ops[0], ast.Eq):
+        if isinstance(n, ast.If) and isinstance(n.test, ast.Compare) and src(n.test.left) in dims and isinstance(n.test.ops[0], ast.Eq) \
+                and not isinstance(getattr(n, '_parent', None), ast.For):
             chain = n
             break
+    if chain is None:
+        # the same dispatch written as a loop over a literal table:  for name, U in ((..., ...), ...): if dim == U.dimensionality: ...; break / else: raise
+        for n in walk_no_nested(f.node):
+            if isinstance(n, ast.For):
+                chain = _unroll_literal_for(n, f.node)
+                if chain is not None:
+                    break
     if chain is None:
         raise AnalysisError('dimension dispatch not found')
     rets = [r for r in walk_no_nested(f.node) if isinstance(r, ast.Return) and isinstance(r.value, ast.Tuple) and len(r.value.elts) == 2]
@@ -302,7 +356,18 @@ def volumetric(ctx, d4):
         ps, _ = run_paths(f.node)
         cons = 'VolumetricFlowDict.' + nm
         # inputs of the recomputation
-        calls = [n for n in walk_no_nested(f.node) if isinstance(n, ast.Call) and any(isinstance(a, ast.Starred) and src(a.value) == 'self.TP' for a in n.args)]
+        def tp_calls(fn_):
+            return [n for n in walk_no_nested(fn_.node) if isinstance(n, ast.Call) and any(isinstance(a, ast.Starred) and src(a.value) == 'self.TP' for a in n.args)]
+        calls = tp_calls(f)
+        if not calls:
+            # the cached molar volume may live in a private helper shared by output and input
+            for n in walk_no_nested(f.node):
+                if isinstance(n, ast.Call) and isinstance(n.func, ast.Attribute) and src(n.func.value) == 'self' and n.func.attr in c.methods \
+                        and tp_calls(c.methods[n.func.attr]):
+                    f = c.methods[n.func.attr]
+                    ps, _ = run_paths(f.node)
+                    calls = tp_calls(f)
+                    break
         if not calls:
             d4.fail(cons, 'anchor', 'molar volume evaluation V(*self.TP) not found', f, f.node)
             continue
